@@ -24,7 +24,7 @@ RULE = ("interpolation: label vectors over {0,1,2,3} (isolated, clusters of adja
 ASSUMPTIONS = ["a bad channel's admissible neighbours = non-bad channels whose distance-decay weight exp(-(d/20um)^1.3) is >= 0.005 (d <= 72.1 um)",
                "detection is judged on generated backgrounds only; the feature margins measured on the run are written to the evidence",
                "mode over batches is asserted only without ties (7/3 splits)"]
-REQUIRED = {"interp_cases": 40, "bad_rows_checked": 100, "untouched_rows_checked": 40, "detection_cases": 20, "file_mode_cases": 2, "spied_batches": 20}
+REQUIRED = {"interp_cases": 40, "nonfinite_bad_rows": 20, "bad_rows_checked": 100, "untouched_rows_checked": 40, "detection_cases": 20, "file_mode_cases": 2, "spied_batches": 20}
 CASE_TIMEOUT = 200.0
 KINDS = ["3B2", "NP2.1", "NP2.4", "NPultra"]
 
@@ -117,9 +117,23 @@ def run_case(case):
                 data = rng.uniform(0.5, 1.5, (nc, ns)) * scale
             bad = (labels == 1) | (labels == 2)
             data[bad] = 1e6 * scale * rng.choice([-1, 1], (int(bad.sum()), 1))      # any leak from a bad row shows
+            garbage = str(rng.choice(["huge", "huge", "nan", "inf", "mixed"]))        # what a broken channel holds is irrelevant to its repair
+            if garbage != "huge":
+                g = data[bad]
+                if garbage == "nan":
+                    g[:] = np.nan
+                elif garbage == "inf":
+                    g[:] = np.inf * rng.choice([-1, 1], (g.shape[0], 1))
+                else:
+                    m = rng.random(g.shape)
+                    g[m < 0.2] = np.nan
+                    g[(m >= 0.2) & (m < 0.4)] = np.inf
+                    g[(m >= 0.4) & (m < 0.5)] = -np.inf
+                data[bad] = g
+                res.count("nonfinite_bad_rows", int(bad.sum()))
             data = data.astype(dt)
             d0 = data.copy()
-            label = f"{kind} pattern={pattern} nbad={int(bad.sum())} data={mode} {np.dtype(dt).name}"
+            label = f"{kind} pattern={pattern} nbad={int(bad.sum())} data={mode} bad rows hold {garbage} {np.dtype(dt).name}"
             pexp, krig = 1.3, 20.0
             res.count("interp_cases")
             try:
@@ -146,6 +160,11 @@ def run_case(case):
                 lo, hi = d0[donors].min(axis=0).astype(np.float64), d0[donors].max(axis=0).astype(np.float64)
                 tol = (1e-9 if dt == np.float64 else 1e-5) * scale
                 o = out[i].astype(np.float64)
+                if not np.all(np.isfinite(o)):
+                    nviol += 1
+                    if nviol <= 2:
+                        res.violation("interp:non-finite-from-bad-row", f"{label}: repaired channel {i} is not finite although its {donors.size} admissible neighbours are")
+                    continue
                 if np.any(o < lo - tol) or np.any(o > hi + tol):
                     nviol += 1
                     j = int(np.argmax(np.maximum(lo - o, o - hi)))
